@@ -147,12 +147,17 @@ Variable sk_string_ok : text -> bool.
 Variable utf8_decode : bytes -> option text.
 Variable utf8_encode : text -> bytes.
 
-(* encrypt: every draw is inside the library call, which is made only when the plan succeeded *)
+(* encrypt: every draw is inside the library call, which is made only when the plan succeeded.  The io state of
+   the call is Cli.job_io; when input and output are one file the bytes fed are Cli.alias_fed of the same call
+   (the model evaluates the call twice from the same source g: the program makes it once, and the draws of a
+   call do not depend on the bytes read) *)
+Definition lib_enc_r (g : rsrc) (j : enc_job) (input : bytes) : (outcome eerr unit * io) * rsrc :=
+  key_encrypt_r P g (ej_s j) (ej_spk j) (ej_r j) None None None (job_io input (ej_dir j) (ej_bad j)).
 Definition cmd_encrypt_r (g : rsrc) (w : world) (o : enc_opts) : cmd_result * rsrc :=
   match encrypt_plan pk_ok sk_ok unlock decode_pk utf8_decode w o with
   | inl st => (fail_result w st, g)
   | inr j =>
-    let '(r, g') := key_encrypt_r P g (ej_s j) (ej_spk j) (ej_r j) None None None (io0 (ej_input j)) in
+    let '(r, g') := lib_enc_r g j (alias_fed (ej_alias j) (ej_input j) (fun inp => fst (lib_enc_r g j inp))) in
     (stream_result w (eo_outfile o) r fin_enc, g')
   end.
 
